@@ -103,7 +103,7 @@ def gen_atom(outdir, maxpages=6, imported=False):
     g.write(outdir)
 
 
-def add_atomic_ops(g):
+def add_atomic_ops(g, only_load_store=False):
     # every atomic load/store/rmw/cmpxchg opcode with two static offsets (also valid on a memory that is not shared)
     for op, code in sorted(ATOMIC.items(), key=lambda kv: kv[1]):
         if op in ("atomic.fence",):
@@ -116,6 +116,8 @@ def add_atomic_ops(g):
             if op == "memory.atomic.notify" or op.startswith("memory.atomic.wait"):
                 continue
             nm = "%s_o%d" % (ident(op), off)
+            if only_load_store and ".load" not in op and ".store" not in op:
+                continue
             if ".load" in op:
                 g.add(nm, "i", vt, [("local.get", 0), (op, off)], "aload", "%s,%d" % (op, off))
             elif ".store" in op:
@@ -126,7 +128,7 @@ def add_atomic_ops(g):
                 g.add(nm, "i" + vt, vt, [("local.get", 0), ("local.get", 1), (op, off)], "rmw", "%s,%d" % (op, off))
 
 
-def gen_mem(outdir, minpages=1, maxpages=8, nomax=False, name="mem"):
+def gen_mem(outdir, minpages=1, maxpages=8, nomax=False, name="mem", only_load_store=False):
     g = Gen(name)
     m = g.m
     if nomax:
@@ -134,7 +136,7 @@ def gen_mem(outdir, minpages=1, maxpages=8, nomax=False, name="mem"):
     else:
         m.memory(minpages, maxpages, export="memory")
     add_memory_ops(g, False)
-    add_atomic_ops(g)
+    add_atomic_ops(g, only_load_store)
     # passive segments for memory.init, and one active segment
     seg0 = bytes((i * 7 + 3) & 0xFF for i in range(200))
     seg1 = bytes((255 - i) & 0xFF for i in range(33))
@@ -156,6 +158,8 @@ if __name__ == "__main__":
         gen_atom(outdir, *[int(x) for x in sys.argv[3:4]])
     elif kind == "atomimp":
         gen_atom(outdir, 6, imported=True)
+    elif kind == "memls":
+        gen_mem(outdir, name="memls", only_load_store=True)     # atomic loads and stores only: what a build without a threads implementation supports
     elif kind == "memnomax":
         gen_mem(outdir, 1, 8, nomax=True, name="memnomax")     # a memory that declares no maximum
     elif kind == "mem":
